@@ -57,7 +57,7 @@ def goTable : List ((String × String × String) × GoClass) := [
   (("task_master.go", "TaskMaster.stream", "func"),
     .joined "runForking: tm.wg.Wait in waitForForks (Drain/Close) after closing write_points; belongs to the TaskMaster, not to a task (model: the fork process, forkDone)"),
   (("udf.go", "UDFNode.runUDF", "func"),
-    .joined "the forwarding goroutine: runUDF receives forwardErr after udf.Close (model: kind udf, fwdDead when it ended early)"),
+    .leaks "the forwarding goroutine: runUDF receives forwardErr after udf.Close — but NOT when udf.Close returns an error (the UDF process died): runUDF returns at once, node.start closes the child edges and this goroutine may still be in edge.Forward: send on closed channel, the process dies (finding failed-udf-forwarder-not-joined; model: kind udf, fwdDead when it ended early)"),
   (("udf.go", "UDFNode.runUDF", "func"),
     .joined "the writing goroutine: n.wg.Wait in runUDF and in abortedCallback (model: kind udf, the take action)"),
   (("udf.go", "UDFProcess.Open", "func"),
